@@ -362,6 +362,7 @@ type pending struct {
 	spent   time.Duration
 
 	closedViols []viol
+	awaiting    bool // the answer to the hostile message itself is outstanding
 }
 
 type child struct {
@@ -766,6 +767,15 @@ func (ch *child) runCase(d caseDesc) {
 		time.Sleep(2 * time.Millisecond)
 		c.Send(rq.Tail)
 	}
+	// hc announces a changed pairing state over mDNS (one second) before it answers an accepted /pairings request or
+	// pair-setup M5: the answer to such a message is awaited while later cases run
+	if rq.First == nil && rq.Tail == nil && !rq.Desync && rq.Raw == nil &&
+		((d.EP == "pairings" && cs.secure && d.Class != "add-existing") || (d.EP == "pair-setup" && d.State == "psM3")) {
+		p.awaiting = true
+		ch.parked = append(ch.parked, p)
+		parkedNow = true
+		return
+	}
 	p.a = readAnswer(c)
 	parkedNow = ch.judge(p)
 }
@@ -892,14 +902,24 @@ func (ch *child) finishOldest() {
 	p := ch.parked[0]
 	ch.parked = ch.parked[1:]
 	p.t0 = time.Now()
+	again := false
 	defer func() {
 		if e := recover(); e != nil {
 			p.res.Incon = fmt.Sprintf("monitor panic while finishing case %d: %v\n%s", p.d.ID, e, debug.Stack())
+			again = false
 		}
 		p.spent += time.Since(p.t0)
-		p.cs.c.Close()
-		ch.emit(p)
+		if !again {
+			p.cs.c.Close()
+			ch.emit(p)
+		}
 	}()
+	if p.awaiting {
+		p.awaiting = false
+		p.a = readAnswer(p.cs.c)
+		again = ch.judge(p) // may park the case once more (pair-setup continuation)
+		return
+	}
 	if ch.wedged {
 		// a missing answer was confirmed meanwhile: the accessory is wedged, nothing more is learnt from waiting here
 		p.res.SameConn = "not-finished-after-wedge"
@@ -978,7 +998,7 @@ func (ch *child) conclude(p *pending, usable bool) {
 	}
 
 	// ---- a new connection still works
-	if (len(res.Viols) > 0 || ch.n%3 == 0 || a.kind != "answered") && !ch.wedged {
+	if !ch.wedged {
 		addr, st, v := w.health(p.rnd)
 		res.NewConn = st
 		ch.addV(p, v, "after the hostile message: ")
